@@ -70,6 +70,7 @@ func tableConfigs(tier string) []Config {
 			cfg(pSmallOdd, 1, 6, "plain"), cfg(pSmallOdd, 2, 4, "bulk"), cfg(pTinyOdd, 1, 6, "bulk"), cfg(pTinyOdd, 2, 6, "plain"),
 			cfg(pLastPort, 1, 4, "bulk"), cfg(pLastPort, 3, 6, "plain"),
 			withMap(cfg(pHigh, 1, 5, "bulk"), 2), withMap(cfg(pWhole, 2, 5, "plain"), 1), withMap(cfg(pDefault, 1, 4, "plain"), 3),
+			withLate(cfg(pHigh, 2, 5, "plain"), 1), withLate(cfg(pWhole, 2, 4, "bulk"), 1), withLate(cfg(pHigh, 3, 5, "bulk"), 2),
 		}
 	}
 	return []Config{
@@ -81,6 +82,7 @@ func tableConfigs(tier string) []Config {
 		cfg(pSmallOdd, 1, 4, "plain"), cfg(pTinyOdd, 1, 6, "bulk"),
 		cfg(pLastPort, 2, 5, "bulk"),
 		withMap(cfg(pHigh, 1, 4, "bulk"), 2), withMap(cfg(pWhole, 2, 4, "plain"), 1),
+		withLate(cfg(pHigh, 2, 4, "plain"), 1), withLate(cfg(pWhole, 2, 3, "bulk"), 1),
 	}
 }
 
@@ -88,6 +90,9 @@ func tableConfigs(tier string) []Config {
 func withMap(c Config, n int) Config { c.MapCap = n; return c }
 
 // chainConfigs: long random histories with more subscribers than blocks (exhaustion and reuse).
+// withLate: the first n public addresses (the ones that sort first) are configured while the gateway runs
+func withLate(c Config, n int) Config { c.LateIPs = n; c.ByRange = false; return c }
+
 func chainConfigs() []Config {
 	return []Config{
 		cfg(pDefault, 1, 12, "bulk"),
